@@ -157,7 +157,7 @@ func RunIterSession(db *kv.DB, model map[string][]byte, spec *IterOp, apply func
 		}
 		return nil
 	}
-	feat, f := RunIterCalls(it, m, spec, len(spec.Prefix) == 0, checkValue, apply, tr)
+	feat, f := RunIterCalls(it, m, spec, true, checkValue, apply, tr)
 	feat.PrefixFiltered = len(model) - len(m.Keys)
 	return feat, f
 }
